@@ -29,6 +29,13 @@ fn not_panicking() -> bool {
     false
 }
 
+// No Arc is ever released in these harnesses (every handle is forgotten at the end); cutting the
+// deallocation path keeps CBMC from exploring the drop glue of TransactionalMemory and of the
+// tracker's maps behind a reference count it cannot resolve.
+fn stub_arc_drop_slow<T: ?Sized, A: core::alloc::Allocator>(_this: &mut Arc<T, A>) {
+    kani::assume(false);
+}
+
 fn no_format(_args: core::fmt::Arguments<'_>) -> alloc::string::String {
     alloc::string::String::new()
 }
@@ -89,6 +96,7 @@ macro_rules! drop_harness {
         #[kani::stub(std::sync::Condvar::notify_one, stub_notify_one)]
         #[kani::stub(crate::panicking, not_panicking)]
         #[kani::stub(alloc::fmt::format, no_format)]
+        #[kani::stub(alloc::sync::Arc::drop_slow, stub_arc_drop_slow)]
         fn $name() {
             drop_case($live, $first);
         }
